@@ -550,6 +550,57 @@ func runCase(c *caseIn) (o obs, direct string) {
 			call = func(ctx context.Context) error { return up.Close(ctx) }
 			follow = func(ctx context.Context) error { closed = true; return conn.Close(ctx) }
 		}
+	case "ScFlushAbandoned":
+		// Flush calls whose context is already cancelled / cancelled concurrently: about half of
+		// them are taken by the flush loop and then abandoned by the caller before the result
+		// is handed back.  Afterwards the stream must work as before.
+		if d := openUp(); d != "" {
+			return o, d
+		}
+		for i := 0; i < c.Pos; i++ {
+			cl, _, es := guarded(setupWd, func() error {
+				wctx, wcancel := bg(200 * time.Millisecond)
+				defer wcancel()
+				up.WriteDataPoints(wctx, dataID, point()) // judged by the call under test, not here
+				fctx, fcancel := context.WithCancel(context.Background())
+				if i%2 == 0 {
+					fcancel() // already cancelled
+				} else {
+					go func() { time.Sleep(time.Duration(20*i) * time.Microsecond); fcancel() }()
+				}
+				up.Flush(fctx) // its result does not matter
+				fcancel()
+				return nil
+			})
+			if cl != "ONil" {
+				return o, "harness: abandoned flush " + cl + " " + es
+			}
+		}
+		call = func(ctx context.Context) error {
+			if err := up.WriteDataPoints(ctx, dataID, point()); err != nil {
+				return err
+			}
+			return up.Flush(ctx)
+		}
+		follow = func(ctx context.Context) error { return up.Close(ctx) }
+	case "ScFloodThenRequest":
+		// the broker floods the client with messages the application never collects, then answers a request at once
+		if d := openDown(); d != "" {
+			return o, d
+		}
+		alias := e.downAlias.Load()
+		s := sess()
+		n := c.Pos
+		for i := 0; i < n; i++ {
+			s.Send(&message.DownstreamCall{CallID: fmt.Sprintf("q%d", i), SourceNodeID: "peer", Name: "n", Type: "t", Payload: []byte{1}})
+			s.Send(&message.DownstreamCall{CallID: fmt.Sprintf("r%d", i), RequestCallID: "nobody", SourceNodeID: "peer", Name: "n", Type: "t", Payload: []byte{1}})
+			ch := chunk(alias)
+			ch.StreamChunk.SequenceNumber = uint32(i + 1)
+			s.Send(ch)
+			s.Send(meta(alias, "src"))
+		}
+		call = func(ctx context.Context) error { return conn.SendBaseTime(ctx, baseTime()) }
+		follow = func(ctx context.Context) error { closed = true; return conn.Close(ctx) }
 	case "ScUpCloseSlowList":
 		e.noAck.Store(true)
 		if d := openUp(); d != "" {
@@ -728,6 +779,17 @@ func main() {
 					jobs = append(jobs, j)
 				}
 			}
+			// abandoned Flush calls, then Write+Flush and Close on a healthy broker (pos = number of abandoned-flush attempts)
+			for _, k := range []int{1, 3, 8} {
+				jobs = append(jobs, mk("ScFlushAbandoned", "BAnswer", k, 300, 5000))
+			}
+			// inbound flood of uncollected calls / reply calls / chunks / metadata (pos = messages of each kind), then a request
+			// (keepalive far beyond the deadline: a stalled dispatcher must not be rescued by a spurious reconnect)
+			for _, k := range []int{200, 1100} {
+				j := mk("ScFloodThenRequest", "BAnswer", k, 300, 5000)
+				j.PingInt, j.PingTo = 2000, 2000
+				jobs = append(jobs, j)
+			}
 			// Upstream.Close, ack withheld, close timeout (120) and context (200) both expire while sent.List (350 ms) runs
 			for _, lst := range []int{350, 500} {
 				j := mk("ScUpCloseSlowList", "BDrop", 0, 200, 120)
@@ -792,7 +854,7 @@ func main() {
 		w.Count("beh:" + jobs[i].Beh)
 		w.Count("class:" + cs.Observed.(obs).Class)
 	}
-	rule := "every API scenario (open up/down, write, flush, read, read-metadata, metadata, call, call-and-wait, stream close up/down, conn close) x exchange position x broker behaviour {answer, delay 60 ms, drop, misaddress (reply for another request id / stream alias / call id / unsubscribed source node), disconnect (loud; thorough also silent)} with a context deadline of 100-300 ms, ping 20/40 ms, close timeout 5 s and 120 ms; plus Conn.Close and Upstream.Close during an outage with failing redials (loud / silent), Upstream.Close whose deadlines expire while the sent storage's List is in progress (slow storage), request-after-close (former F5), State() after a late ack (former F13), Conn.Close while another request is in flight (F31). non-trivial = behaviour other than answer; distinct = distinct Coq case terms (durations included)"
+	rule := "every API scenario (open up/down, write, flush, read, read-metadata, metadata, call, call-and-wait, stream close up/down, conn close) x exchange position x broker behaviour {answer, delay 60 ms, drop, misaddress (reply for another request id / stream alias / call id / unsubscribed source node), disconnect (loud; thorough also silent)} with a context deadline of 100-300 ms, ping 20/40 ms, close timeout 5 s and 120 ms; plus 1/3/8 Flush calls with a cancelled context followed by Write+Flush and Close, an inbound flood of 200/1100 uncollected calls, reply calls, chunks and metadata followed by a request, Conn.Close and Upstream.Close during an outage with failing redials (loud / silent), Upstream.Close whose deadlines expire while the sent storage's List is in progress (slow storage), request-after-close (former F5), State() after a late ack (former F13), Conn.Close while another request is in flight (F31). non-trivial = behaviour other than answer; distinct = distinct Coq case terms (durations included)"
 	if err := w.Flush(*seed, *tier, rule, true, nil); err != nil {
 		fmt.Fprintln(os.Stderr, err)
 		os.Exit(2)
